@@ -327,6 +327,31 @@ def r8_3(ctx, fx):
     ctx.floor(rid, n, 18, "limited / bounded extrapolations")
 
 
+def r8_4(ctx, fx):
+    import re
+    rid = "R8.4"
+    ctx.rule(rid, "a token is spent only where a loss of precision has been established: the widening-with-tokens technique delays the widening while the plain widening would lose precision; every `--(*tp)` is reached only through a branch on a containment test (`!contains(x_tmp)` of the plain result, or, in the BHRZ03 widening, the failed `y.contains(x)` of the early exit, which with y <= x means the two arguments differ). A token spent without such a test is spent also when the two arguments are equal and the plain widening returns x exactly")
+    n = 0
+    seen = set()
+    for f in fx.functions:
+        if not f.cfg or (f.relfile, f.line, f.flag("pattern")) in seen:
+            continue
+        seen.add((f.relfile, f.line, f.flag("pattern")))
+        decs = [x for x in f.walk() if x["k"] == "unop" and x.get("op") == "--" and re.match(r"^--\(?\*tp\)?$", f.text(x).replace(" ", ""))]
+        for d in decs:
+            n += 1
+            inst = "%s%s: --(*tp) (line %s)" % ((f.clsn + "::") if f.clsn else "", f.name, d.get("l"))
+
+            def edge(cond, taken):
+                return any(y["k"] in ("call", "mcall") and f.call_name(y).lstrip("~") in ("contains", "strictly_contains") for y in f.walk(cond))
+            bad = flow.must_precede(f, d, lambda nod: False, edge_satisfied=edge)
+            if bad is None:
+                ctx.ok(rid, inst, f.where(d))
+            else:
+                ctx.violation(rid, inst, f.where(d), "a path reaches the decrement without having branched on a containment test (%s)" % flow.render_path(f, bad))
+    ctx.floor(rid, n, 10, "token decrements")
+
+
 def run(ctx):
     ctx.explanation = ("C08 protocol clauses of the widenings: token protocol (receiver untouched while tokens last, token spent only when the widened copy is not contained), "
                        "certificate guard of the BHRZ03 / BHZ03 heuristics, shape of the limited and bounded extrapolations; decides these clauses, not upper-bound-ness, "
@@ -337,3 +362,4 @@ def run(ctx):
     r8_1(ctx, fx)
     r8_2(ctx, fx)
     r8_3(ctx, fx)
+    r8_4(ctx, fx)
